@@ -337,7 +337,51 @@ func checkC12(c *Check) {
 			}
 		})
 		calls := callsNamed(ru, "(route.Leaf).URLPath")
-		if lk == nil || len(calls) != 1 {
+		// `if flag { return leaf.URLPath(vals, true) }; return leaf.URLPath(vals, false)`: one call per
+		// value of the flag is the single call with the flag as argument
+		if lk != nil && len(calls) == 2 {
+			var ct, cf ssa.CallInstruction
+			for _, cl := range calls {
+				if vConstBool(true)(cl.Common().Args[1]) {
+					ct = cl
+				} else if vConstBool(false)(cl.Common().Args[1]) {
+					cf = cl
+				}
+			}
+			if ct != nil && cf != nil && strip(ct.Common().Args[0]) == strip(cf.Common().Args[0]) {
+				if mm, ok := strip(ct.Common().Args[0]).(*ssa.MakeMap); ok {
+					isWO := cCmp(token.EQL, func(v ssa.Value) bool {
+						v = strip(v)
+						if e, isE := v.(*ssa.Extract); isE && e.Index == 0 {
+							v = e.Tuple
+						}
+						l, ok := v.(*ssa.Lookup)
+						return ok && strip(l.X) == ssa.Value(mm) && vConstStr("withOptional")(l.Index)
+					}, vConstStr("true"))
+					on := edgesWhere(ru, isWO, true)
+					off := edgesWhere(ru, isWO, false)
+					g1, _ := guardedBy(ru, on, isInstr(ct))
+					g2, _ := guardedBy(ru, off, isInstr(cf))
+					isDel := func(in ssa.Instruction) bool {
+						ci, ok := in.(ssa.CallInstruction)
+						return ok && callName(ci.Common()) == "builtin.delete" && strip(ci.Common().Args[0]) == ssa.Value(mm) && vConstStr("withOptional")(ci.Common().Args[1])
+					}
+					okDel, _ := mustPrecede(ru, isDel, ct)
+					found := edgesWhere(ru, cBool(vExtract(1, vIs(lk))), true)
+					gf1, _ := guardedBy(ru, found, isInstr(ct))
+					gf2, _ := guardedBy(ru, found, isInstr(cf))
+					okLeaf := vExtract(0, vIs(lk))(ct.Common().Value) && vExtract(0, vIs(lk))(cf.Common().Value)
+					c.Cond(gf1 && gf2 && okLeaf && len(found) > 0, k+":unknown-name-panics", p.Pos(ct.Pos()), "the leaf is used only on the found edge", "an unknown route name does not panic (nil leaf used or empty result returned)")
+					checkPairsMapPlain(c, ru, mm, k)
+					c.Cond(g1 && g2 && len(on) > 0, k+":withOptional-flag", p.Pos(ct.Pos()), "URLPath(vals, true) exactly on the vals[\"withOptional\"] == \"true\" edge, URLPath(vals, false) otherwise", "the optional flag does not follow the \"withOptional\", \"true\" pair")
+					c.Cond(okDel, k+":withOptional-removed", p.Pos(ct.Pos()), "the control key is deleted before substitution", "the \"withOptional\" key stays in the values: a bind named withOptional is substituted with \"true\"")
+					calls = nil
+				}
+			}
+		}
+		if calls == nil {
+			// handled above
+		} else if lk == nil || len(calls) != 1 {
 			c.Bad(k+":lookup", p.FuncPos(ru), "no comma-ok lookup of the name in namedRoutes followed by one Leaf.URLPath call")
 		} else {
 			call := calls[0]
